@@ -23,6 +23,7 @@ class Scen(object):
     self.hints = []
     self.info = {}
     self.splits = []
+    self.mono = []
 
   def claim(self, name, goal):
     self.goals[name] = ("claim", goal)
@@ -136,6 +137,8 @@ def run_case(case, tier, known):
       else:
         per_path.append((p, p.value))
       res["notes"].extend(p.notes)
+      if p.outcome == "return" and p.value is not None and p.value.info.get("raised"):
+        res["notes"].append("raised: " + p.value.info["raised"])
     clause_names = []
     for p, s in per_path:
       if s is not None:
@@ -213,6 +216,9 @@ def _run_clause(case, cname, per_path, timeout, known_entries, res):
       except Exception as e:  # pylint: disable=broad-except
         out["reason"] += " known-finding exclude failed to evaluate: %s" % e
     ax = VC.all_axioms(base + [x for _, x in excl], hints)
+    for (ma, mb, mc) in (getattr(s, "mono", []) if s is not None else []):
+      # ordered-field fact: a <= b and c >= 0  =>  a*c <= b*c   (valid for all reals)
+      ax.append(z3.Implies(z3.And(ma <= mb, mc >= 0), ma * mc <= mb * mc))
     residual = base + ax + [z3.Not(x) for _, x in excl]
     o = VC.check_sat(residual, timeout)
     if o.status == "unknown":
